@@ -237,6 +237,8 @@ def translate_driver(repo, gendir):
 # --------------------------------------------------------------------------------------------------------
 # call sites of the platform driver interface
 ACT = ("pulse", "enable", "timed_enable")
+API_FILES = (os.path.join("mpf", "config_players", "coil_player.py"),
+             os.path.join("mpf", "platforms", "driver_light_platform.py"))
 
 
 def scan_sites(repo):
@@ -248,6 +250,10 @@ def scan_sites(repo):
                          passed on, stored elsewhere  (only outside mpf/platforms: platform code handles its own
                          driver objects and receives DriverSettings that were verified above the interface)
       configure_driver   <x>.configure_driver(...) outside mpf/platforms: where hw driver objects are created
+      set:<attr>         assignment to <x>._pulse_ms / <x>._timed_enable_ms outside mpf/platforms: where the (unverified)
+                         runtime defaults of a Driver are written (the model lets them take any value at any time)
+      api:<method>       calls of pulse/enable/timed_enable/disable in coil_player.py and driver_light_platform.py: the
+                         further entry points, which must stay on the public (verifying) Driver API
     """
     sites = []
     root = os.path.join(repo, "mpf")
@@ -283,6 +289,14 @@ def scan_sites(repo):
                 if isinstance(node, ast.Call) and isinstance(node.func, ast.Attribute) and \
                         node.func.attr == "configure_driver" and not in_platforms:
                     sites.append((rel,) + where(node) + ("configure_driver",))
+                # where the unverified defaults are written (runtime placeholders) ...
+                if isinstance(node, ast.Attribute) and node.attr in ("_pulse_ms", "_timed_enable_ms") and \
+                        isinstance(node.ctx, (ast.Store, ast.Del)) and not in_platforms:
+                    sites.append((rel,) + where(node) + ("set:" + node.attr,))
+                # ... and how the further entry points (coil_player, lights on drivers) use the Driver API
+                if rel in API_FILES and isinstance(node, ast.Call) and isinstance(node.func, ast.Attribute) and \
+                        node.func.attr in ACT + ("disable",):
+                    sites.append((rel,) + where(node) + ("api:" + node.func.attr,))
                 if not (isinstance(node, ast.Attribute) and node.attr == "hw_driver"):
                     continue
                 par = parents.get(node)
@@ -349,14 +363,27 @@ RULE = ("call: one request per case on a real Driver of a booted machine (virtua
         "verify: the four get_and_verify_* on their own (defaults computed at initialisation). "
         "timer: 3-12 timed requests (software pulses, hardware pulses, enable, disable, waits) on one coil with/without "
         "max_hold_duration, request times = 1 mod 4 ms and durations = 2 mod 4 ms so that no request coincides with a "
-        "deadline; non-trivial = a timer fires between two requests")
+        "deadline; non-trivial = a timer fires between two requests. "
+        "hist: whole histories (2-14 timed requests) on one coil of the booted machine, every request with arbitrary "
+        "(also refusable) arguments through its flavours (direct call, control-event handler with junk kwargs, "
+        "CoilPlayer.play pulse/enable/disable, Flipper.sw_flip, DriverLight.set_brightness of a light on the drivers "
+        "platform, timed_enable, hardware rules), pulses/enables with max_wait_ms while the PSU is busy with another "
+        "coil (deferred _pulse_now/_enable_now), default_pulse_ms/default_timed_enable_ms re-evaluated through the real "
+        "machine-variable placeholder path or set directly; 55% of the histories start with a race (software-timed "
+        "pulse / watchdog / deferred call pending, 1-3 further requests inside that window). Recorded: every call on "
+        "hw_driver and every operation on the coil's DelayManager with its instant. Histories in which two deadlines "
+        "(or a deadline and a request) coincide are evaluated by the oracle only (~2%, counted as not validated). "
+        "non-trivial = a request was refused or a delay fired between two requests")
 TRUSTED_BASE = [
     "Coq 8.16.1 kernel (coqc), vm_compute for the call-site list and for evaluating the model in the correspondence run",
     "axioms: none (every Print Assumptions is 'Closed under the global context')",
     "translator harness/props/c08.py (Python ast -> Gallina, fail-closed subset) for Driver.get_and_verify_*; its output "
     "is validated against the real methods on every run (suites verify and call)",
-    "hand-written model of pulse/_pulse_now/enable/_enable_now/timed_enable/disable, of the rule-settings helpers and "
-    "of the two named delays, tied by correspondence on every run",
+    "hand-written model of pulse/_pulse_now/enable/_enable_now/timed_enable/disable, of the rule-settings helpers, of "
+    "DriverLight.set_brightness, of the coil's DelayManager (two named delays + anonymous deferred calls) and of the "
+    "clock (Hist.v), tied by correspondence on every run (suites call, timer, hist: effects with their instants)",
+    "the power-supply unit is NOT modelled: its answer (wait_ms) is an input of every request, observed on the "
+    "implementation and universally quantified in the theorems",
     "CPython float/int comparison semantics (modelled: exact rationals + NaN, bool as int); DelayManager/asyncio clock "
     "(modelled as two named deadlines on integer milliseconds)",
     "the AST scan for hw_driver call sites (attribute name based: an alias stored under another attribute name and "
@@ -366,7 +393,10 @@ ASSUMPTIONS = [
     "coil configs pass MPF's config validation (powers in [0,1] or None, max_pulse_ms non-negative int or None, "
     "max_hold_duration non-negative seconds or None); a limit of 0 is read by the code as 'not configured'",
     "+-inf and str arguments are checked by the oracle only (not representable in the model)",
-    "max_hold_duration on a 1/8 s grid so that `* 1000` is exact in floating point",
+    "max_hold_duration on a 1/8 s grid so that `* 1000` is exact in floating point; request instants and delays on "
+    "whole milliseconds (instants compared after rounding to 1 ms)",
+    "equal deadlines: the theorems cover both orders; the correspondence run skips such histories (asyncio gives no order)",
+    "a PSU-deferred enable is not cancelled by a later disable() (behaviour of the code as it is; modelled, see NOTES.md)",
     "platform drivers (mpf/platforms/*) execute the PulseSettings/HoldSettings they are given; digital outputs are "
     "not coils and have no configured limits",
 ]
@@ -540,6 +570,38 @@ def gen_call(rng, tier, i):
 _R = {}
 
 
+class _TLog(list):
+    """the log of one coil; every entry is stamped with the machine clock (parallel list .times)"""
+
+    def __init__(self):
+        super().__init__()
+        self.times = []
+        self.clock = None
+
+    def append(self, x):
+        self.times.append(self.clock() if self.clock else 0.0)
+        super().append(x)
+
+    def wipe(self):
+        del self[:]
+        del self.times[:]
+
+
+def _tie_check():
+    """two pending delays of the coil (or a delay and the present instant) closer than 0.4 ms: asyncio does not
+    promise an order, the history is then not compared with the model (oracle only)"""
+    R = _R
+    if "real_delay" not in R:
+        return
+    try:
+        now = R["m"].clock.get_time()
+        ws = sorted(d[0].when() for d in R["real_delay"].delays.values())
+    except Exception:   # noqa
+        return
+    if any(b - a < 4e-4 for a, b in zip(ws, ws[1:])) or any(abs(w - now) < 4e-4 for w in ws):
+        R["tie"] = True
+
+
 class _HwProxy:
     """Recording stand-in for the platform driver: logs what reaches the interface, forwards to the real one."""
 
@@ -581,19 +643,28 @@ class _DelayProxy:
 
     def reset(self, ms, callback, name, **kwargs):
         self._log.append(["delay_reset", name, tagv(ms), getattr(callback, "__name__", "?")])
-        return self._real.reset(ms, callback, name, **kwargs)
+        try:
+            return self._real.reset(ms, callback, name, **kwargs)
+        finally:
+            _tie_check()
 
     def add_if_doesnt_exist(self, ms, callback, name, **kwargs):
         self._log.append(["delay_add_if_absent", name, tagv(ms), getattr(callback, "__name__", "?")])
-        return self._real.add_if_doesnt_exist(ms, callback, name, **kwargs)
+        try:
+            return self._real.add_if_doesnt_exist(ms, callback, name, **kwargs)
+        finally:
+            _tie_check()
 
     def remove(self, name):
         self._log.append(["delay_remove", name])
         return self._real.remove(name)
 
     def add(self, ms, callback, name=None, **kwargs):
-        self._log.append(["delay_add", getattr(callback, "__name__", "?")])
-        return self._real.add(ms, callback, name, **kwargs)
+        self._log.append(["delay_add", getattr(callback, "__name__", "?"), tagv(ms), tagv(name)])
+        try:
+            return self._real.add(ms, callback, name, **kwargs)
+        finally:
+            _tie_check()
 
     def __getattr__(self, n):
         return getattr(self._real, n)
@@ -607,13 +678,18 @@ def _boot():
     from rig import Rig
     cfg = {
         "switches": {"s_test": {"number": "1"}, "s_other": {"number": "2"}},
-        "coils": {"c_test": {"number": "1", "allow_enable": True}, "c_other": {"number": "2"}},
+        "coils": {"c_test": {"number": "1", "allow_enable": True, "default_pulse_ms": "machine.c08_pms",
+                             "default_timed_enable_ms": "machine.c08_tems"}, "c_other": {"number": "2"}},
         "flippers": {"f_test": {"main_coil": "c_test", "activation_switch": "s_test"}},
+        "lights": {"l_test": {"number": "c_test", "platform": "drivers", "subtype": "matrix"}},
+        "machine_vars": {"c08_pms": {"initial_value": 10, "value_type": "int"},
+                         "c08_tems": {"initial_value": 0, "value_type": "int"}},
     }
     r = Rig(cfg).start()
     m = r.machine
     coil = m.coils["c_test"]
-    log = []
+    log = _TLog()
+    log.clock = m.clock.get_time
     real_hw = coil.hw_driver
     coil.hw_driver = _HwProxy(real_hw, log)
     real_delay = coil.delay
@@ -653,7 +729,8 @@ def _reset(R):
         psu._busy_until = None
     R["m"].flippers["f_test"]._enabled = False
     R["m"].flippers["f_test"]._sw_flipped = False
-    del R["log"][:]
+    R["log"].wipe()
+    R["tie"] = False
 
 
 def _classify(e):
@@ -675,6 +752,7 @@ def run_call(case):
     a = {k: (v if k.startswith("has_") else untag(v)) for k, v in case["args"].items()}
     entry = case["entry"]
     out = {"err": None, "deferred": False}
+    broken = False
     try:
         try:
             if entry == "pulse":
@@ -726,6 +804,7 @@ def run_call(case):
                 r.advance(0.5)        # the PSU wait is at most 100 + release_wait ms
             except Exception as e:   # noqa
                 out["err"] = _classify(e)            # raised inside the delayed _pulse_now
+                broken = True         # the rig's event loop is unusable after an exception in a callback
         out["log"] = [list(x) for x in log if x[0] != "delay_add"]
         if out["deferred"]:
             # keep what the delayed _pulse_now did; a short software timer may already have fired during the wait
@@ -736,7 +815,7 @@ def run_call(case):
         pend = dict(R["real_delay"].delays)
         out["pending"] = sorted(pend)
         out["state_after_call"] = R["real_hw"].state
-        if R["real_hw"].state == "enabled" and pend:
+        if R["real_hw"].state == "enabled" and pend and not broken:
             wait = 0.0
             for x in out["log"]:
                 if x[0] in ("delay_reset", "delay_add_if_absent"):
@@ -748,6 +827,7 @@ def run_call(case):
                 r.advance(max(wait, 0.0) + 0.002)
             except Exception as e:   # noqa
                 out["err_later"] = _classify(e)
+                broken = True
             out["state_when_due"] = R["real_hw"].state
             out["log_when_due"] = [list(x) for x in log[n0:]]
         try:
@@ -759,6 +839,8 @@ def run_call(case):
             _reset(R)
         except Exception:   # noqa
             pass
+        if broken:
+            _R.clear()        # next case boots a fresh machine
     return out
 
 
@@ -1186,6 +1268,541 @@ def nontrivial_timer(case, out):
 HDR_TIMER = ("From C08 Require Import Py Model.\nOpen Scope Z_scope.\n"
              "Definition run := timer_run.\nDefinition out_eqb := tobs_eqb.\n")
 
+# ---- histories: requests (accepted and refused), PSU-deferred calls, placeholders, timers on one clock --------------
+HIST_KINDS = ["pulse", "pulse", "pulse", "enable", "enable", "enable", "disable", "disable", "timed_enable", "light",
+              "light", "other_pulse", "setpms", "settems", "rule", "nop"]
+
+
+def _gen_hist_cfg(rng):
+    mp = lambda p: None if rng.random() < p else rng.choice([0.125, 0.25, 0.5, 0.75, 1.0])   # noqa
+    cfg = {
+        "allow_enable": rng.random() < 0.45,
+        "default_pulse_power": mp(0.7),
+        "default_hold_power": mp(0.7),
+        "max_pulse_ms": None if rng.random() < 0.5 else rng.choice([30, 102, 258, 1002]),
+        "max_pulse_power": 1.0 if rng.random() < 0.5 else mp(0.1),
+        "max_hold_power": mp(0.6),
+        "max_hold_duration": None if rng.random() < 0.45 else rng.choice([0.25, 0.75, 1.25, 2.25]),
+        "pulse_with_timed_enable": rng.random() < 0.08,
+        "_pulse_ms": rng.choice([10, 22, 30, 2, 258, 302]),
+        "_timed_enable_ms": rng.choice([0, 0, 1, 2]),
+        "plat_max_pulse": rng.choice([255, 25, 25, 1, 1]),
+    }
+    if cfg["max_pulse_power"] and cfg["default_pulse_power"] and cfg["default_pulse_power"] > cfg["max_pulse_power"]:
+        cfg["default_pulse_power"] = cfg["max_pulse_power"]
+    if cfg["max_hold_power"] and cfg["default_hold_power"] and cfg["default_hold_power"] > cfg["max_hold_power"]:
+        cfg["default_hold_power"] = cfg["max_hold_power"]
+    if cfg["max_pulse_ms"] and cfg["_pulse_ms"] > cfg["max_pulse_ms"] and rng.random() < 0.8:
+        cfg["_pulse_ms"] = cfg["max_pulse_ms"]
+    return cfg
+
+
+def _hist_ms(rng, c):
+    r = rng.random()
+    if r < 0.3:
+        return None
+    if r < 0.8:
+        return 2 + 4 * rng.choice([0, 1, 5, 7, 25, 50, 64, 100, 250, rng.randint(0, 300)])
+    if r < 0.9 and c["max_pulse_ms"]:
+        return c["max_pulse_ms"] + rng.choice([0, 0, 1, 4])
+    return rng.choice([0, -2, 2.5, 10 ** 6, True, float("nan"), 1, 255, 256])
+
+
+def _hist_power(rng, lim):
+    r = rng.random()
+    if r < 0.5:
+        return None
+    if r < 0.8:
+        return rng.choice([0.125, 0.25, 0.5, 1.0, 1, lim or 0.375])
+    return rng.choice([0.0, -0.5, 1.5, float("nan"), (lim or 0.5) + 0.125, 0.3, 0])
+
+
+def _hist_op(rng, c, kind, t):
+    if kind == "pulse":
+        return [t, "pulse", rng.choice(["direct", "direct", "event", "player"]),
+                {"pulse_ms": tagv(_hist_ms(rng, c)), "pulse_power": tagv(_hist_power(rng, c["max_pulse_power"])),
+                 "max_wait_ms": tagv(None if c["pulse_with_timed_enable"] else rng.choice([None, None, None, 500, 500, 40, 0]))}]
+    if kind == "enable":
+        fl = rng.choice(["direct", "direct", "event", "player", "sw_flip"])
+        if fl == "sw_flip":      # Flipper.sw_flip: main_coil.enable() without arguments
+            return [t, "enable", fl, {"pulse_ms": None, "pulse_power": None, "hold_power": None, "max_wait_ms": None}]
+        return [t, "enable", fl,
+                {"pulse_ms": tagv(_hist_ms(rng, c) if rng.random() < 0.5 else None),
+                 "pulse_power": tagv(_hist_power(rng, c["max_pulse_power"])),
+                 "hold_power": tagv(_hist_power(rng, c["max_hold_power"])),
+                 "max_wait_ms": tagv(rng.choice([None, None, 500, 500, 40]) if fl == "direct" else None)}]
+    if kind == "timed_enable":
+        mhd = c["max_hold_duration"]
+        return [t, "timed_enable", rng.choice(["direct", "event"]),
+                {"timed_enable_ms": tagv(rng.choice([None, 0, 1, 2, 100, -1, int(mhd) if mhd else 50])),
+                 "hold_power": tagv(_hist_power(rng, c["max_hold_power"])),
+                 "pulse_ms": tagv(_hist_ms(rng, c) if rng.random() < 0.4 else None),
+                 "pulse_power": tagv(_hist_power(rng, c["max_pulse_power"])),
+                 "max_wait_ms": tagv(rng.choice([None, None, 500]))}]
+    if kind == "disable":
+        return [t, "disable", rng.choice(["direct", "event", "player"]), {}]
+    if kind == "light":
+        return [t, "light", "direct", {"brightness": tagv(rng.choice([0, 0.0, -0.5, 0.25, 0.5, 1.0, 1.0, 0.3764705882352941,
+                                                                     float("nan"), 1.5, (c["max_hold_power"] or 0.5)]))}]
+    if kind == "other_pulse":
+        return [t, "other_pulse", "direct", {"pulse_ms": tagv(rng.choice([40, 100, 100, 200]))}]
+    if kind == "setpms":
+        v = rng.choice([10, 22, 30, 302, 1002, (c["max_pulse_ms"] or 100) + 4, 90, -6, 0])
+        return [t, "setpms", rng.choice(["var", "var", "direct"]), {"v": tagv(v)}]
+    if kind == "settems":
+        return [t, "settems", rng.choice(["var", "direct"]), {"v": tagv(rng.choice([0, 1, 2, 50, 10 ** 4, -3]))}]
+    if kind == "rule":
+        return [t, "rule", rng.choice(["no_hold", "with_hold"]),
+                {"pulse_ms": tagv(_hist_ms(rng, c)), "pulse_power": tagv(_hist_power(rng, c["max_pulse_power"])),
+                 "hold_power": tagv(_hist_power(rng, c["max_hold_power"]))}]
+    return [t, "nop", "direct", {}]
+
+
+def gen_hist(rng, tier, i):
+    c = _gen_hist_cfg(rng)
+    ops = []
+    t = 1
+    if rng.random() < 0.55:
+        # a race: something that leaves a delay pending (software-timed pulse, watchdog, PSU-deferred call), then
+        # one to three further requests inside that window
+        first = rng.choice(["soft", "soft", "hold", "defer_pulse", "defer_enable", "defer_enable"])
+        if first == "soft":
+            c["plat_max_pulse"] = rng.choice([1, 25, 255])
+            ms = c["plat_max_pulse"] + 3 + 4 * rng.choice([10, 25, 60, 100, 150])
+            if c["max_pulse_ms"] and ms > c["max_pulse_ms"]:
+                c["max_pulse_ms"] = rng.choice([None, ms, ms + 100])
+            c["pulse_with_timed_enable"] = False
+            ops.append([t, "pulse", rng.choice(["direct", "event", "player"]),
+                        {"pulse_ms": tagv(ms), "pulse_power": None, "max_wait_ms": None}])
+            win = ms
+        elif first == "hold":
+            if c["max_hold_duration"] is None:
+                c["max_hold_duration"] = rng.choice([0.25, 0.75, 1.25])
+            if rng.random() < 0.8:
+                c["allow_enable"] = True
+            ops.append(_hist_op(rng, c, "enable", t))
+            ops[-1][3]["max_wait_ms"] = None
+            win = int(c["max_hold_duration"] * 1000)
+        else:
+            c["pulse_with_timed_enable"] = False
+            oms = rng.choice([40, 100, 200])
+            ops.append([t, "other_pulse", "direct", {"pulse_ms": tagv(oms)}])
+            t += 4 * rng.choice([1, 2, 5])
+            if first == "defer_pulse":
+                ops.append([t, "pulse", rng.choice(["direct", "event", "player"]),
+                            {"pulse_ms": tagv(_hist_ms(rng, c)), "pulse_power": None, "max_wait_ms": tagv(500)}])
+            else:
+                if rng.random() < 0.8:
+                    c["allow_enable"] = True
+                if rng.random() < 0.7 and c["max_hold_duration"] is None:
+                    c["max_hold_duration"] = rng.choice([0.25, 0.75, 1.25])
+                ops.append([t, "enable", "direct", {"pulse_ms": None, "pulse_power": None, "hold_power": None,
+                                                    "max_wait_ms": tagv(500)}])
+            win = oms + 10
+        for _ in range(rng.randint(1, 3)):
+            t += 4 * max(1, rng.randint(1, max(2, win // 4)) // rng.choice([1, 1, 2, 4]))
+            ops.append(_hist_op(rng, c, rng.choice(["enable", "enable", "disable", "disable", "pulse", "light", "timed_enable",
+                                                    "setpms", "nop"]), t))
+    n = rng.randint(1, 7 if tier == "quick" else 10)
+    for _ in range(n):
+        if ops:
+            t += 4 * rng.choice([1, 2, 5, 25, 50, 100, 200, 400, rng.randint(1, 300)])
+        ops.append(_hist_op(rng, c, rng.choice(HIST_KINDS), t))
+    ops.append([t + 4 * rng.choice([700, 1000]), "nop", "direct", {}])
+    return {"cfg": {k: tagv(v) for k, v in c.items()}, "ops": ops}
+
+
+def _hist_do(R, op):
+    coil, m = R["coil"], R["m"]
+    kind, fl = op[1], op[2]
+    a = {k: untag(v) for k, v in op[3].items()}
+    if kind == "pulse":
+        if fl == "direct":
+            coil.pulse(a["pulse_ms"], a["pulse_power"], a["max_wait_ms"])
+        elif fl == "event":
+            coil.event_pulse(pulse_ms=a["pulse_ms"], pulse_power=a["pulse_power"], max_wait_ms=a["max_wait_ms"], junk=1)
+        else:
+            m.coil_player.play({coil: {"action": "pulse", "pulse_ms": a["pulse_ms"], "pulse_power": a["pulse_power"],
+                                       "hold_power": None, "max_wait_ms": a["max_wait_ms"]}}, "verif_ctx", "verif")
+    elif kind == "enable":
+        if fl == "direct":
+            coil.enable(a["pulse_ms"], a["pulse_power"], a["hold_power"], a["max_wait_ms"])
+        elif fl == "event":
+            coil.event_enable(pulse_ms=a["pulse_ms"], pulse_power=a["pulse_power"], hold_power=a["hold_power"], junk="x")
+        elif fl == "player":
+            m.coil_player.play({coil: {"action": "enable", "pulse_ms": a["pulse_ms"], "pulse_power": a["pulse_power"],
+                                       "hold_power": a["hold_power"], "max_wait_ms": None}}, "verif_ctx", "verif")
+        else:
+            m.flippers["f_test"]._enabled = True
+            m.flippers["f_test"]._sw_flipped = False
+            m.flippers["f_test"].sw_flip()
+    elif kind == "timed_enable":
+        if fl == "direct":
+            coil.timed_enable(a["timed_enable_ms"], a["hold_power"], a["pulse_ms"], a["pulse_power"], a["max_wait_ms"])
+        else:
+            coil.event_timed_enable(timed_enable_ms=a["timed_enable_ms"], hold_power=a["hold_power"], pulse_ms=a["pulse_ms"],
+                                    pulse_power=a["pulse_power"], max_wait_ms=a["max_wait_ms"], junk=None)
+    elif kind == "disable":
+        if fl == "direct":
+            coil.disable()
+        elif fl == "event":
+            coil.event_disable(junk=2)
+        else:
+            m.coil_player.play({coil: {"action": "disable", "pulse_ms": None, "pulse_power": None, "hold_power": None,
+                                       "max_wait_ms": None}}, "verif_ctx", "verif")
+    elif kind == "light":
+        list(m.lights["l_test"].hw_drivers.values())[0][0].set_brightness(a["brightness"])
+    elif kind == "other_pulse":
+        m.coils["c_other"].pulse(a["pulse_ms"])
+    elif kind in ("setpms", "settems"):
+        if fl == "var":
+            # the real path: machine variable -> template future -> Driver._calculate_*_placeholder
+            m.variables.set_machine_var("c08_pms" if kind == "setpms" else "c08_tems", a["v"])
+            R["rig"].advance(0.001)
+            got = coil._pulse_ms if kind == "setpms" else coil._timed_enable_ms
+            if got != a["v"]:
+                # same value as before: no notification; the harness-set default is still in place
+                if kind == "setpms":
+                    coil._pulse_ms = a["v"]
+                else:
+                    coil._timed_enable_ms = a["v"]
+        elif kind == "setpms":
+            coil._pulse_ms = a["v"]
+        else:
+            coil._timed_enable_ms = a["v"]
+    elif kind == "rule":
+        from mpf.core.platform_controller import SwitchRuleSettings, DriverRuleSettings, PulseRuleSettings, HoldRuleSettings
+        sw = SwitchRuleSettings(switch=m.switches["s_test"], debounce=False, invert=False)
+        dr = DriverRuleSettings(driver=coil, recycle=False)
+        ps = PulseRuleSettings(power=a["pulse_power"], duration=a["pulse_ms"])
+        if fl == "no_hold":
+            rule = m.platform_controller.set_pulse_on_hit_rule(sw, dr, ps)
+        else:
+            rule = m.platform_controller.set_pulse_on_hit_and_enable_and_release_rule(
+                sw, dr, ps, HoldRuleSettings(power=a["hold_power"]))
+        m.platform_controller.clear_hw_rule(rule)
+
+
+def run_hist(case):
+    R = _boot()
+    _reset(R)
+    _apply_cfg(R, case["cfg"])
+    m, r, log = R["m"], R["rig"], R["log"]
+    for k, v in (("c08_pms", -12345), ("c08_tems", -12345)):
+        m.variables.set_machine_var(k, v)          # so that every later value is a change (a notification)
+    r.advance(0.001)
+    _apply_cfg(R, case["cfg"])
+    log.wipe()
+    R["tie"] = False
+    out = {"ops": [], "broken": None}
+    t0 = r.now()
+    try:
+        for op in case["ops"]:
+            d = t0 + op[0] / 1000.0 - r.now()
+            nlog = len(log)
+            try:
+                if d > 0:
+                    r.advance(d)
+                if any(abs(tm - r.now()) < 4e-4 for tm in log.times[nlog:]):
+                    R["tie"] = True          # a delay expired exactly at the instant of this request
+            except Exception as e:   # noqa  an exception inside a delay callback: the loop is unusable afterwards
+                out["broken"] = _classify(e)
+                _R.clear()
+                break
+            _tie_check()
+            n0 = len(log)
+            err = None
+            try:
+                _hist_do(R, op)
+            except Exception as e:   # noqa: what the code raises is data
+                err = _classify(e)
+            wait = 0
+            for x in log[n0:]:
+                if x[0] == "delay_add" and x[1] in ("_pulse_now", "_enable_now"):
+                    w = untag(x[2])
+                    wait = int(round(w)) if isinstance(w, (int, float)) and w == w and abs(w) < 10 ** 7 else -1
+            out["ops"].append({"err": err, "n0": n0, "n1": len(log), "wait": wait})
+        out["trace"] = [[int(round((tm - t0) * 1000))] + list(x) for tm, x in zip(log.times, log)]
+        if out["broken"] is None:
+            dl = R["real_delay"].delays
+
+            def when(name):
+                return None if name not in dl else int(round((dl[name][0].when() - t0) * 1000))
+            last = [x[0] for x in log if x[0] in ("enable", "disable")]
+            out["final"] = [bool(last) and last[-1] == "enable", when("timed_disable"), when("enable_limit_reached"),
+                            len([k for k in dl if k not in ("timed_disable", "enable_limit_reached")])]
+            out["state"] = R["real_hw"].state
+        out["tie"] = bool(R.get("tie"))
+    finally:
+        if _R:
+            try:
+                m.coil_player.clear_context("verif_ctx")
+            except Exception:   # noqa
+                pass
+            try:
+                _reset(R)
+            except Exception:   # noqa
+                pass
+    return out
+
+
+def _hist_values(case):
+    vs = list(case["cfg"].values())
+    for op in case["ops"]:
+        vs += list(op[3].values())
+    return vs
+
+
+def _coq_hreq(op, wait):
+    kind, fl, a = op[1], op[2], op[3]
+    g = lambda k: cv(a.get(k))   # noqa
+    if kind == "pulse":
+        return "(HReq (RPulse %s %s) %s)" % (g("pulse_ms"), g("pulse_power"), zlit(wait))
+    if kind == "enable":
+        if fl == "sw_flip":
+            return "(HReq (REnable PNone PNone PNone) 0)"
+        return "(HReq (REnable %s %s %s) %s)" % (g("pulse_ms"), g("pulse_power"), g("hold_power"), zlit(wait))
+    if kind == "timed_enable":
+        return "(HReq (RTimedEnable %s %s %s %s) 0)" % (g("timed_enable_ms"), g("hold_power"), g("pulse_ms"), g("pulse_power"))
+    if kind == "disable":
+        return "(HReq RDisable 0)"
+    if kind == "light":
+        return "(HLight %s)" % g("brightness")
+    if kind == "setpms":
+        return "(HSetPulseMs %s)" % g("v")
+    if kind == "settems":
+        return "(HSetTimedEnableMs %s)" % g("v")
+    if kind == "rule":
+        ps = "(Some (%s, %s))" % (g("pulse_power"), g("pulse_ms"))
+        if fl == "no_hold":
+            return "(HReq (RRuleNoHold %s) 0)" % ps
+        return "(HReq (RRuleWithHold %s (Some %s)) 0)" % (ps, g("hold_power"))
+    return "HNop"
+
+
+HIST_BAD = "([(0, TX EType); (0, TX EType)], ((false, (@None Z, @None Z)), (0, false)))"     # cannot match: reported
+
+
+def coq_hist(case, out):
+    if not all(representable(v) for v in _hist_values(case)):
+        return None
+    if out.get("tie") and out["broken"] is None:
+        return None                                    # equal deadlines: order not defined (counted as not validated)
+    reqs = []
+    for op, o in zip(case["ops"], out["ops"]):
+        reqs.append("(%s, %s)" % (zlit(op[0]), _coq_hreq(op, max(o["wait"], 0))))
+    inp = "(%s, %s)" % (coq_cfg(case["cfg"]), coqlist(reqs))
+    if out["broken"] is not None or len(out["ops"]) != len(case["ops"]) or any(o["wait"] < 0 for o in out["ops"]):
+        return "(%s, %s)" % (inp, HIST_BAD)
+    # the trace: effects in order, the error of a refused request at the position of the request
+    items = []
+    errs = {}
+    for op, o in zip(case["ops"], out["ops"]):
+        if o["err"] is not None:
+            errs.setdefault(o["n1"], []).append((o["err"], op[0]))
+    tr = out["trace"]
+    for i in range(len(tr) + 1):
+        for e, et in errs.get(i, []):
+            if e not in ("EAssert", "ELimits", "EType"):
+                return "(%s, %s)" % (inp, HIST_BAD)
+            items.append("(%s, TX %s)" % (zlit(et), e))
+        if i < len(tr):
+            x = tr[i]
+            if x[1] == "delay_add":
+                if x[2] in ("_pulse_now", "_enable_now"):
+                    continue
+                return "(%s, %s)" % (inp, HIST_BAD)
+            e = coq_eff(x[1:])
+            if e is None:
+                return "(%s, %s)" % (inp, HIST_BAD)
+            items.append("(%s, TE %s)" % (zlit(x[0]), e))
+    zo = lambda v: "(@None Z)" if v is None else "(Some %s)" % zlit(v)   # noqa
+    f = out["final"]
+    return "(%s, (%s, ((%s, (%s, %s)), (%s, true))))" % (inp, coqlist(items), blit(f[0]), zo(f[1]), zo(f[2]), zlit(f[3]))
+
+
+HDR_HIST = ("From Coq Require Import QArith.\nFrom C08 Require Import Py Model Hist.\nOpen Scope Z_scope.\n"
+            "Definition run := hist_run.\nDefinition out_eqb := hist_eqb.\n")
+
+
+def oracle_hist(case, out):
+    """The property on the hardware-level trace of a whole history (independent of the Coq model):
+    every command within the limits; a refused request sends nothing and a bad explicit argument is refused; every
+    disable request switches the coil off; and at every instant the time the coil has been on (hw enable without a
+    hw disable since) is covered by an accepted request: by the software-timed pulses accepted since it was off, or,
+    once an accepted enable was executed, by max_hold_duration counted from the first such enable (unlimited only
+    when no max_hold_duration is configured)."""
+    c = {k: untag(v) for k, v in case["cfg"].items()}
+    fails = []
+
+    def bad(sig, what):
+        fails.append({"sig": sig, "what": "%s [cfg=%s ops=%s]" % (
+            what, {k: v for k, v in c.items() if v not in (None, False)},
+            [[o[0], o[1], o[2], {k: untag(v) for k, v in o[3].items() if v is not None}] for o in case["ops"]])})
+    if out["broken"] is not None:
+        bad("exception-in-delayed-call" if str(out["broken"]).startswith("E") else "unexpected-exception",
+            "a delay callback raised %s" % out["broken"])
+    holding_allowed = bool(c["allow_enable"]) or bool(c["max_hold_power"]) or bool(c["default_hold_power"])
+    mhd_ms = c["max_hold_duration"] * 1000 if c["max_hold_duration"] else None
+    tr = out.get("trace", [])
+    # which entries come from which request
+    owner = {}
+    for j, o in enumerate(out["ops"]):
+        for i in range(o["n0"], o["n1"]):
+            owner[i] = j
+    HW = ("pulse", "enable", "timed_enable", "rule")
+    for j, (op, o) in enumerate(zip(case["ops"], out["ops"])):
+        sl = tr[o["n0"]:o["n1"]]
+        a = {k: untag(v) for k, v in op[3].items()}
+        if o["err"] is not None:
+            if not str(o["err"]).startswith("E"):
+                bad("unexpected-exception", "request %r raised %s" % (op[:3], o["err"]))
+            if op[1] not in ("other_pulse",) and any(x[1] in HW or x[1] == "delay_add" for x in sl):
+                bad("command-sent-by-refused-request", "request %r raised %s but %r happened" % (op[:3], o["err"], sl))
+        else:
+            chk = []
+            if op[1] in ("pulse", "enable", "timed_enable", "rule"):
+                if a.get("pulse_ms") is not None:
+                    chk.append(("pulse_ms", _dur_bad(a["pulse_ms"], c["max_pulse_ms"])))
+                if a.get("pulse_power") is not None:
+                    chk.append(("pulse_power", _power_bad(a["pulse_power"], c["max_pulse_power"])))
+            if op[1] in ("enable", "timed_enable") or (op[1] == "rule" and op[2] == "with_hold"):
+                if a.get("hold_power") is not None:
+                    chk.append(("hold_power", _power_bad(a["hold_power"], c["max_hold_power"])))
+            if op[1] == "timed_enable" and a.get("timed_enable_ms") is not None:
+                chk.append(("timed_enable_ms", _dur_bad(a["timed_enable_ms"], mhd_ms)))
+            if op[1] == "light" and _isnum(a["brightness"]) and a["brightness"] > 0:
+                chk.append(("hold_power", _power_bad(a["brightness"], c["max_hold_power"])))
+            for name, isbad in chk:
+                if isbad:
+                    bad("bad-%s-accepted" % name, "%s was accepted in %r" % (name, [op[1], op[2], a]))
+            if (op[1] == "disable" or (op[1] == "light" and _isnum(a["brightness"]) and a["brightness"] <= 0)) and \
+                    not any(x[1] == "disable" for x in sl):
+                bad("disable-request-ignored", "disable request at %d sent no hw disable" % op[0])
+    # limits on every command, and the on-time of the coil
+    on = False
+    first_hold = None
+    soft_until = None
+    end = case["ops"][len(out["ops"]) - 1][0] if out["ops"] else 0
+
+    def check_until(tau):
+        if first_hold is not None:
+            if mhd_ms and tau > first_hold + mhd_ms + 1:
+                bad("held-beyond-max-hold-duration",
+                    "coil continuously on until %d ms; the first accepted enable of this on-period was executed at %d, "
+                    "max_hold_duration is %d ms" % (tau, first_hold, mhd_ms))
+        elif soft_until is None or tau > soft_until + 1:
+            bad("on-beyond-accepted-request",
+                "coil on until %d ms with no accepted enable; accepted software-timed pulses cover it until %r" %
+                (tau, soft_until))
+    prev = None
+    for i, x in enumerate(tr):
+        t, k = x[0], x[1]
+        if k == "pulse":
+            p, d = untag(x[2]), untag(x[3])
+            if _power_bad(p, c["max_pulse_power"]):
+                bad("pulse-power-out-of-limits", "hw pulse with power %r at %d" % (p, t))
+            if _dur_bad(d, c["max_pulse_ms"]) or d <= 0:
+                bad("pulse-ms-out-of-limits", "hw pulse with duration %r at %d" % (d, t))
+        elif k == "timed_enable":
+            p, d, h, hd = untag(x[2]), untag(x[3]), untag(x[4]), untag(x[5])
+            if _power_bad(p, c["max_pulse_power"]):
+                bad("pulse-power-out-of-limits", "timed_enable with pulse power %r" % (p,))
+            if _dur_bad(d, c["max_pulse_ms"]):
+                bad("pulse-ms-out-of-limits", "timed_enable with pulse duration %r" % (d,))
+            if _power_bad(h, c["max_hold_power"]) or (h > 0 and not holding_allowed):
+                bad("hold-power-out-of-limits", "timed_enable with hold power %r" % (h,))
+            if _dur_bad(hd, mhd_ms):
+                bad("hold-duration-out-of-limits", "timed_enable with hold duration %r" % (hd,))
+        elif k == "rule":
+            p, d = untag(x[3]), untag(x[4])
+            if _power_bad(p, c["max_pulse_power"]):
+                bad("pulse-power-out-of-limits", "rule with pulse power %r" % (p,))
+            if _dur_bad(d, c["max_pulse_ms"]):
+                bad("pulse-ms-out-of-limits", "rule with pulse duration %r" % (d,))
+            if x[5] is not None:
+                h = untag(x[5][1])
+                if _power_bad(h, c["max_hold_power"]) or not h > 0 or not holding_allowed:
+                    bad("hold-power-out-of-limits", "rule with hold power %r" % (h,))
+        elif k == "enable":
+            p, d, h = untag(x[2]), untag(x[3]), untag(x[4])
+            soft = prev is not None and prev[1] == "delay_reset" and prev[2] == "timed_disable" and prev[0] == t
+            if soft:
+                ms = untag(prev[3])
+                if _dur_bad(ms, c["max_pulse_ms"]):
+                    bad("soft-pulse-ms-out-of-limits", "software-timed pulse of %r ms at %d" % (ms, t))
+                    ms = 0
+                if _power_bad(p, c["max_pulse_power"]) or _power_bad(h, c["max_pulse_power"]):
+                    bad("pulse-power-out-of-limits", "software-timed pulse with power %r/%r" % (p, h))
+                j = owner.get(i)
+                if j is not None and case["ops"][j][1] == "pulse":
+                    req = untag(case["ops"][j][3].get("pulse_ms"))
+                    if req is not None and req != ms:
+                        bad("clamped-silently", "pulse_ms=%r requested, software timer of %r ms" % (req, ms))
+                soft_until = max(soft_until or 0, t + ms)
+            else:
+                if _power_bad(p, c["max_pulse_power"]):
+                    bad("pulse-power-out-of-limits", "enable with pulse power %r" % (p,))
+                if _dur_bad(d, c["max_pulse_ms"]):
+                    bad("pulse-ms-out-of-limits", "enable with pulse duration %r" % (d,))
+                if _power_bad(h, c["max_hold_power"]) or not h > 0:
+                    bad("hold-power-out-of-limits", "enable with hold power %r" % (h,))
+                if not holding_allowed:
+                    bad("held-without-permission", "coil enabled although its configuration does not allow holding")
+                if first_hold is None:
+                    first_hold = t
+            on = True
+        elif k == "disable":
+            if on:
+                check_until(t)
+            on = False
+            first_hold = None
+            soft_until = None
+        prev = x
+    if on and out["broken"] is None:
+        check_until(end)
+        if out.get("final") and out["final"][1] is None and out["final"][2] is None and out["final"][3] == 0 and \
+                (first_hold is None or mhd_ms):
+            bad("on-without-timer", "coil on at the end of the history with no pending delay and no unlimited hold")
+    seen = set()
+    res = []
+    for f in fails:
+        if f["sig"] not in seen:
+            seen.add(f["sig"])
+            res.append(f)
+    return res[:2]
+
+
+def shrink_hist(case):
+    ops = case["ops"]
+    for i in range(len(ops) - 1):
+        yield {"cfg": case["cfg"], "ops": ops[:i] + ops[i + 1:]}
+    base = {"default_pulse_power": None, "default_hold_power": None, "max_pulse_ms": None, "max_hold_power": None,
+            "pulse_with_timed_enable": tagv(False)}
+    for k, v in base.items():
+        if case["cfg"][k] != v:
+            yield {"cfg": dict(case["cfg"], **{k: v}), "ops": ops}
+    for i, op in enumerate(ops):
+        for k, v in op[3].items():
+            if v is not None and k != "v" and k != "brightness":
+                yield {"cfg": case["cfg"], "ops": ops[:i] + [[op[0], op[1], op[2], dict(op[3], **{k: None})]] + ops[i + 1:]}
+        if op[2] in ("event", "player", "var"):
+            yield {"cfg": case["cfg"], "ops": ops[:i] + [[op[0], op[1], "direct", op[3]]] + ops[i + 1:]}
+
+
+def nontrivial_hist(case, out):
+    """a refused request while a delay was pending, or a delay that fired between two requests"""
+    times = set(op[0] for op in case["ops"])
+    fired = any(x[0] not in times and x[0] - 1 not in times for x in out.get("trace", []))
+    refused = any(o["err"] is not None for o in out["ops"])
+    return fired or refused
+
+
+def describe_hist(case):
+    ks = set(op[1] for op in case["ops"])
+    return "mhd" if case["cfg"]["max_hold_duration"] else ("wait" if "other_pulse" in ks else "plain")
+
+
 SUITES = [
     Suite("call", gen_call, run_call, HDR_CALL, coq_call, oracle_call, shrink_call, nontrivial_call,
           {"quick": 6000, "thorough": 60000}, describe=describe_call, shard=500),
@@ -1193,11 +1810,13 @@ SUITES = [
           {"quick": 3000, "thorough": 30000}, describe=lambda c: c["f"], shard=500),
     Suite("timer", gen_timer, run_timer, HDR_TIMER, coq_timer, oracle_timer, shrink_timer, nontrivial_timer,
           {"quick": 600, "thorough": 6000}, describe=lambda c: "mhd" if c["mhd"] else "no-mhd", shard=300),
+    Suite("hist", gen_hist, run_hist, HDR_HIST, coq_hist, oracle_hist, shrink_hist, nontrivial_hist,
+          {"quick": 900, "thorough": 12000}, describe=describe_hist, shard=300),
 ]
 
 
 def widened_search(seed):
-    """oracle-only search with the thorough-tier generator when a proof or the translation broke"""
+    """oracle-only search with the thorough-tier generators when a proof or the translation broke"""
     import random
     rng = random.Random(seed ^ 0xC08)
     for i in range(4000):
@@ -1206,17 +1825,30 @@ def widened_search(seed):
         f = oracle_call(case, out)
         if f:
             return {"sig": f[0]["sig"], "what": f[0]["what"], "case": case, "suite": "call"}
+    for i in range(3000):
+        case = gen_hist(rng, "thorough", i)
+        out = run_hist(case)
+        f = oracle_hist(case, out)
+        if f:
+            return {"sig": f[0]["sig"], "what": f[0]["what"], "case": case, "suite": "hist"}
     return None
 
 
 LEVEL_TEXT = ("Machine-checked proof (Coq) over the limit-verification functions regenerated from driver.py on every run "
-              "and a hand-written model of the actuation methods: every command of every accepted request is within the "
-              "configured limits, bad requests are refused, software-timed on is guarded by a pending off-timer; plus a "
-              "computed fact that every hw_driver call site is reviewed. Tied to /repo by translation and by differential "
-              "runs on a booted machine with a recording platform driver.")
+              "and a hand-written model of the actuation methods, the coil's delays and the clock: every command of every "
+              "accepted request is within the configured limits (also for PSU-deferred calls and whatever the runtime "
+              "default placeholders evaluate to), bad requests are refused and change nothing, and for every request "
+              "history and every interleaving with expiring delays a coil that is on is guarded by a pending off-timer "
+              "or is a permitted hold with its max_hold_duration watchdog counted from the first enable (theorem "
+              "history_safe); plus a computed fact that every hw_driver call site, every write of the unverified "
+              "defaults and every use of the Driver API by coil_player / lights-on-drivers is reviewed. Tied to /repo by "
+              "translation and by differential runs on a booted machine with a recording platform driver and "
+              "DelayManager (effects compared with their instants).")
 LEVEL_NOTE = ("Trusted: Coq kernel + vm_compute; no axioms; the Python-ast translator (validated by the verify/call suites); "
-              "hand model of the action methods (correspondence); CPython numeric comparison semantics as modelled; platform "
-              "drivers below the interface are out of scope.")
-TECHNIQUE = ("Coq proof over translated (T) verify functions + hand-written (H) action/timer model, differential "
-             "correspondence by vm_compute, direct limit oracle on a recording platform driver")
+              "hand model of the action methods, delays and clock (correspondence); the PSU's answer is an unconstrained "
+              "input; CPython numeric comparison semantics as modelled; platform drivers below the interface are out of "
+              "scope.")
+TECHNIQUE = ("Coq proof over translated (T) verify functions + hand-written (H) action/delay/clock model (invariant over "
+             "event histories), differential correspondence by vm_compute, direct limit and on-time oracle on the "
+             "hardware-level trace of a recording platform driver")
 DESIGN_REF = "DESIGN.md section 3, C08"
